@@ -275,7 +275,9 @@ def gen_stream(ch):
             pending[outer] = f_id
             forced_next.append(f_id)
         seqs_all += [x[0] for x in d if x[0] not in seqs_all]
-        a = [('0%02d' % ch.int(0, 99), 'DATA CATEGORY', '')] if ch.bool(1, 3) else []
+        # Table A entries (message types); real dictionaries declare several
+        a = [('%03d' % ch.int(0, 255), 'DATA CATEGORY %d' % t, 'LINE 2' if t % 2 else '')
+             for t in range(ch.weighted([(3, 0), (3, 1), (3, 2), (2, 3), (1, 6)]))]
         defs.append(TableDef(b, d, ch.choice([3, 4]), ch.choice([33, 25, 40]), a, ch.int(0, 7)))
     # stream order: definitions in order, data messages after at least one of them
     order = []
@@ -359,7 +361,7 @@ def build_stream(sc):
     return sep.join(parts), expected
 
 
-def decode_stream(stream, cache_max, side=None):
+def decode_stream(stream, cache_max, side=None, options=None):
     """in a forked child: [(values, labels, bytes) | ('error', ...)] for every message the scan yields.  side: the bytes of
     another stream (standard descriptors only) that is scanned from start to end, by another decoder object, after every
     message of the main stream -- a second file opened while the first is still being read"""
@@ -367,7 +369,7 @@ def decode_stream(stream, cache_max, side=None):
     side_dec = sut.Decoder()
     out = []
     try:
-        for m in sut.generate_bufr_message(dec, stream):
+        for m in sut.generate_bufr_message(dec, stream, **(options or {})):
             ob = sut.observe(m)
             out.append((ob['values'], ob['labels'], m.serialized_bytes))
             if side is not None:
@@ -423,12 +425,20 @@ def check_stream(sc):
     out.nontrivial = bool(cls & {'nonzero_scale_or_reference', 'sequence_with_replication'})
     side = next((e[3] for e in expected if e[0] == 'control'), None)
     out.classes.append('another_stream_scanned_in_between')
-    for cache_max, interleave in ((None, False), (4, False), (None if len(stream) % 2 else 4, True)):
+    if any(len(td.a) > 1 for td in sc.defs):
+        out.classes.append('several_table_a_entries')
+    out.classes.append('scan_without_wiring')
+    # the last variant hands the decoder's documented options through the scanner, as the command line's decode -m does
+    # (wire_template_data=False) -- the definitions must be taken from the message all the same
+    opt = [{'wire_template_data': False}, {'ignore_value_expectation': True}, {'wire_template_data': False, 'ignore_value_expectation': True}][len(stream) % 3]
+    for cache_max, interleave, options in ((None, False, None), (4, False, None), (None if len(stream) % 2 else 4, True, None),
+                                           (4 if len(stream) % 2 else None, False, opt)):
         try:
-            got = forkexec.run(decode_stream, stream, cache_max, side if interleave else None)
+            got = forkexec.run(decode_stream, stream, cache_max, side if interleave else None, options)
         except forkexec.ChildFailed as e:
             raise runner.HarnessError('forked child failed: %s' % str(e)[:500])
-        tag = ('plain decoder' if cache_max is None else 'compiling decoder') + (', another stream scanned in between' if interleave else '')
+        tag = ('plain decoder' if cache_max is None else 'compiling decoder') + (', another stream scanned in between' if interleave else '') + \
+            (', options %s' % ','.join(sorted(options)) if options else '')
         for k, exp in enumerate(expected):
             kind, evals, elabs, eb = exp
             if k >= len(got):
